@@ -166,6 +166,13 @@ func rewardsToPool(ctx *context) {
 		}
 	}
 
+	if sumOfPortions == 0 {
+		// no role has an online validator (or all ratios are zero): there is nobody to distribute to.
+		// Keep the whole amount as the global residue, it is added to the rewards of the next block.
+		initStat.GetByKind(params.KindValidator).SetRewardsResidue(blockRewards)
+		return
+	}
+
 	rewardsPerPortion := new(big.Int)
 	residue := new(big.Int)
 	rewardsPerPortion.QuoRem(blockRewards, new(big.Int).SetUint64(sumOfPortions), residue)
